@@ -264,6 +264,19 @@ func (r *Decoder) parseRoot() error {
 
 				switch objectMembers.Type.Content {
 				case "literal":
+					if objectMembers.Datatype != nil && len(objectMembers.Datatype.Content) == 0 {
+						return fmt.Errorf("invalid datatype: empty")
+					} else if objectMembers.Lang != nil && len(objectMembers.Lang.Content) == 0 {
+						return fmt.Errorf("invalid lang: empty")
+					} else if objectMembers.Datatype != nil && objectMembers.Datatype.Content == string(rdfiri.LangString_Datatype) {
+						// a language-tagged string spelled with its datatype still needs, and keeps, its language
+						if objectMembers.Lang == nil {
+							return fmt.Errorf("missing key: lang")
+						}
+
+						objectMembers.Datatype = nil
+					}
+
 					if objectMembers.Datatype != nil {
 						r.statements = append(r.statements, statement{
 							triple: rdf.Triple{
